@@ -234,10 +234,63 @@ PROPS["C15"] = dict(
                 "bytes, dtype, shape, strides and flags before and after (also when the call raises).",
     limit_quick=120)
 
+PROPS["C08"] = dict(
+    level="other", needs_ext=True,
+    technique="contract-based deductive verification over the reals with uninterpreted trigonometric functions (own VC generator, z3) "
+              "for totality / range / zero-for-identical / shapes; accuracy as a labelled bounded stand-in against a long-double oracle",
+    level_text="Proved: gcirc returns one angle per pair, its arccos argument is clipped into the domain so the result is defined and "
+               "lies in [0, pi], identical inputs give exactly 0 and the inputs are never written (copies at entry); the unit vectors "
+               "built by _thetaphi2xyz have unit length (sin^2 + cos^2 = 1). Bounded and labelled: sphdist to 1e-11 degree and gcirc to "
+               "2e-6 degree against atan2(|u x v|, u.v) in 80-bit arithmetic over uniform pairs and the adversarial families of the "
+               "statement (separations 1e-12..1e-3 and 180-1e-9..180 degrees, poles, seam, equal points), symmetry, +360 invariance, "
+               "scalar / length-1 / length-3 / long inputs, degree and radian units.",
+    level_note="Trusted: esvc, z3; floats are reals; sin/cos/arccos uninterpreted with sin^2+cos^2=1 and range axioms stated against "
+               "the double constant pi; sphdist itself is not under a proved contract (its nearly-antipodal branch uses 2-d stacking "
+               "and numpy.cross, outside the prover's array model) - it is covered by the bounded oracle only.",
+    explanation="Mixed: proved = gcirc totality/range/zero/frame, unit vectors; bounded = accuracy and invariances of sphdist and gcirc "
+                "on ~1000 (quick) / 100000 (thorough) pairs.",
+    limit_quick=90)
+
+PROPS["C09"] = dict(
+    level="other", needs_ext=True,
+    technique="contract-based deductive verification over the reals with uninterpreted trigonometric functions (own VC generator, z3): "
+              "domains, documented ranges, longitude-shift algebra; invertibility / isometry tolerances as a labelled bounded stand-in",
+    level_text="Proved: euler (all six selectors, both epochs, tables read from the source on every run) returns one finite output "
+               "pair per input with latitude in [-90,90] - the arcsin argument is clipped into its domain on both sides - and longitude "
+               "in [0,360), without writing its inputs; shiftlon returns values in [0,360) that differ from input minus shift by a "
+               "multiple of 360 (witnessed), the wrap branch returns values in (-180,180]; atbound folds every cell into a window of at "
+               "least one turn; unit vectors have unit length. Bounded and labelled: every conversion and its inverse to 1e-5 degree "
+               "(1e-9 for SDSS and unit vectors), isometry, agreement with the rotation defined by the documented pole and node "
+               "constants, chained vs direct conversion, rotate, over the sphere plus the poles of all systems.",
+    level_note="Trusted: esvc, z3; floats are reals; trigonometric functions uninterpreted (sin^2+cos^2=1, ranges of arcsin/arctan2 "
+               "against the double constant pi, float % as an uninterpreted remainder with 0 <= r < m); rotate is an assumed contract "
+               "(Cauchy-Schwarz over uninterpreted sin/cos is not discharged by z3) checked bounded; eq2sdss / sdss2eq / xyz2eq are "
+               "bounded only; termination of atbound's loops is not proved.",
+    explanation="Mixed: proved = euler ranges/totality (156 obligations), shiftlon (38), atbound, unit vectors; bounded = "
+                "invertibility, isometry, pole/node agreement, SDSS and xyz round trips, rotate and shifts in doubles.",
+    limit_quick=120)
+
+PROPS["C19"] = dict(
+    level="other", needs_ext=True,
+    technique="contract-based deductive verification with the random generator as a universally quantified parameter (every deviate "
+              "sequence), own VC generator + z3 over the reals; spherical-geometry and sampler clauses as labelled bounded stand-ins",
+    level_text="Proved for every deviate sequence: randsphere returns the requested number of points with longitudes and latitudes "
+               "inside the requested box (arccos decreasing and arccos(cos t)=t assumed) and rejects boxes outside [0,360]x[-90,90]; "
+               "randcap returns the requested number of points, latitudes in [-90,90] and radii that are degrees within the cap radius "
+               "on both the direct and the rotated path (the double radian-to-degree conversion of the rotated path was refuted and "
+               "fixed). Bounded and labelled: points within r of the centre and radii equal to the true separations for centres "
+               "including poles and the seam and radii up to 180 degrees with legacy and new generators, reproducibility, the "
+               "cumulative-method sampler with a stub generator, the Cholesky sampler with a recording deviate source, random_indices.",
+    level_note="Trusted: esvc, z3; generator draws are arbitrary values in their documented range; rotate is an assumed contract; a "
+               "drawn point landing exactly on a pole (0/0 longitude) is not constrained; esutil.random (Generator, CholeskySampler, "
+               "random_indices) is bounded only - the sampler is interplin (proved under C18) applied to scipy's cumulative_trapezoid.",
+    explanation="Mixed: proved = randsphere box property, randcap counts/ranges/radius units; bounded = caps, boxes, samplers.",
+    limit_quick=120)
+
 for _k in range(1, 21):
     PROPS.setdefault("C%02d" % _k, dict(level="other", needs_ext=True, explanation="see DESIGN.md section 8"))
 
 
-CLAIMED = {"C20", "C02", "C05", "C06", "C16", "C18", "C11", "C14", "C17", "C07", "C15"}
+CLAIMED = {"C20", "C02", "C05", "C06", "C16", "C18", "C11", "C14", "C17", "C07", "C15", "C08", "C09", "C19"}
 NOT_APPLICABLE = {("C%02d" % k): "check not built yet (implementation in progress; plan in DESIGN.md section 8)"
                   for k in range(1, 21) if ("C%02d" % k) not in CLAIMED}
